@@ -149,7 +149,7 @@ impl Property for C18 {
         vec!["crash points are sampled, not enumerated; the signal instant is controlled to roughly 50-300 us".into(), "a leftover seen once is a violation regardless of reproducibility".into()]
     }
     fn cases(&self, tier: Tier) -> u32 {
-        tier.pick(120, 2000)
+        tier.pick(120, 800)
     }
     fn shrink_iters(&self) -> u32 {
         40
